@@ -5,5 +5,5 @@ set -e
 cd "$(dirname "$0")"
 for t in cbmc goto-cc goto-instrument gcc python3 objdump z3; do command -v $t >/dev/null || { echo "missing tool: $t"; exit 1; }; done
 mkdir -p evidence replays
-for s in ref/*_selftest.py; do [ -f "$s" ] && python3 "$s" --quick; done
+for s in ref/*_selftest.py; do [ -f "$s" ] && python3 "$s" -n 400; done
 echo "setup ok"
